@@ -90,7 +90,7 @@ def balance_case(res, rng, i, cases, meta):
             quiet(gam.fit, scn['X'].copy(), scn['y'].copy())
         else:
             quiet(gam.fit, scn['X'].copy(), scn['y'].copy(), weights=scn['w'].copy())
-    except ValueError as e:
+    except Exception as e:   # ValueError: permitted outcome (C11); anything else is not about C18 (counted, reported by the owning property)
         res.count('balance: fit raised %s' % type(e).__name__)
         return
     X, y = scn['X'], scn['y']
@@ -151,7 +151,7 @@ def half_case(res, rng, i):
         quiet(lin2.fit, X.copy(), y.copy(), **fw)
         lin1 = pygam.LinearGAM(gen_terms.build_termlist(scn['specs']), **kw)
         quiet(lin1.fit, X.copy(), y.copy(), **fw)
-    except ValueError as e:
+    except Exception as e:
         res.count('half: fit raised %s' % type(e).__name__)
         return
     if eg._constraint_l2 != 1e-3 or lin2._constraint_l2 != 1e-3:
@@ -327,7 +327,7 @@ def run(res):
             gam = gen_models.build_gam(scn)
             if i % 2:
                 quiet(gam.fit, X.copy(), y.copy(), **({} if w is None else dict(weights=w.copy())))
-        except ValueError as e:
+        except Exception as e:
             res.count('trace: setup raised %s' % type(e).__name__)
             continue
         rec = traced_fit_quantile(gam, X.copy(), y.copy(), quantile, max_iter, tol, None if w is None else w.copy())
